@@ -12,6 +12,7 @@ package main
 // ones, so "unsat" from it is a proof; "sat" from it is never believed.
 
 import (
+	"fmt"
 	"go/types"
 	"strings"
 )
@@ -19,6 +20,7 @@ import (
 type hyp struct {
 	pre   []Expr
 	qv    QVar
+	qvs   []QVar // all quantified variables (len > 1 for multi-variable hypotheses)
 	body  Expr
 	env   *Env
 	reach string
@@ -30,7 +32,12 @@ func hasQuant(s string) bool {
 }
 
 func (g *Gen) assumeClause(cl *Clause, env *Env, reach string) {
+	g.assuming = reach
+	if g.assuming == "" {
+		g.assuming = "true"
+	}
 	s := g.mustEval(cl, env)
+	g.assuming = ""
 	g.addFact(implies(reach, s))
 	henv := *env
 	henv.st = env.st.clone()
@@ -38,6 +45,7 @@ func (g *Gen) assumeClause(cl *Clause, env *Env, reach string) {
 }
 
 func (g *Gen) registerHyps(e Expr, pre []Expr, env *Env, reach string) {
+	e = g.inlineSpec(e, 0)
 	switch x := e.(type) {
 	case *EBinary:
 		switch x.Op {
@@ -48,21 +56,121 @@ func (g *Gen) registerHyps(e Expr, pre []Expr, env *Env, reach string) {
 			g.registerHyps(x.Y, append(append([]Expr{}, pre...), x.X), env, reach)
 		}
 	case *EQuant:
-		if x.Forall && len(x.Vars) == 1 && (x.Vars[0].Type == "int" || x.Vars[0].Type == "mathint") {
-			h := &hyp{pre: pre, qv: x.Vars[0], body: x.Body, env: env, reach: reach, done: map[string]bool{}}
+		if x.Forall && allIntVars(x.Vars) {
+			h := &hyp{pre: pre, qv: x.Vars[0], qvs: x.Vars, body: x.Body, env: env, reach: reach, done: map[string]bool{}}
 			g.hyps = append(g.hyps, h)
-			n := len(g.seenIdx)
-			lo := 0
-			if n > 16 {
-				lo = n - 16
-			}
-			for _, t := range g.seenIdx[lo:] {
-				if f := g.instStr(h, t); f != "" {
-					g.addFact(f)
+			if len(x.Vars) == 1 {
+				n := len(g.seenIdx)
+				lo := 0
+				if n > 16 {
+					lo = n - 16
+				}
+				for _, t := range g.seenIdx[lo:] {
+					if f := g.instStr(h, t); f != "" {
+						g.addFact(f)
+					}
 				}
 			}
 		}
 	}
+}
+
+// noteSliceLo remembers the lower bounds of slice expressions: x[lo:][i] is x[lo+i], so lo+sk is a
+// useful instance for hypotheses about x when the goal speaks about the sub-slice.
+func (g *Gen) noteSliceLo(lo string) {
+	for _, l := range g.sliceLos {
+		if l == lo {
+			return
+		}
+	}
+	g.sliceLos = append(g.sliceLos, lo)
+}
+
+func allIntVars(vs []QVar) bool {
+	for _, v := range vs {
+		if v.Type != "int" && v.Type != "mathint" {
+			return false
+		}
+	}
+	return len(vs) > 0
+}
+
+// inlineSpec replaces a call of a non-recursive spec function whose body is a quantified formula
+// (or a conjunction containing one) by that body with the arguments substituted, so that the
+// quantifier becomes visible to skolemisation / instantiation.
+func (g *Gen) inlineSpec(e Expr, depth int) Expr {
+	c, ok := e.(*ECall)
+	if !ok || depth > 4 {
+		return e
+	}
+	sf, ok := g.cs.Specs[c.Fun]
+	if !ok || sf.Rec || sf.Body == nil || len(sf.Params) != len(c.Args) || g.opaque[sf.Name] || !hasQuantExpr(sf.Body, g.cs, 0) {
+		return e
+	}
+	sub := map[string]Expr{}
+	for i, p := range sf.Params {
+		sub[p.Name] = c.Args[i]
+	}
+	return substExpr(sf.Body, sub)
+}
+
+func hasQuantExpr(e Expr, cs *ContractSet, depth int) bool {
+	switch x := e.(type) {
+	case *EQuant:
+		return true
+	case *EBinary:
+		if x.Op == "&&" || x.Op == "==>" {
+			return hasQuantExpr(x.X, cs, depth) || hasQuantExpr(x.Y, cs, depth)
+		}
+	case *ECall:
+		if sf, ok := cs.Specs[x.Fun]; ok && !sf.Rec && sf.Body != nil && depth < 4 {
+			return hasQuantExpr(sf.Body, cs, depth+1)
+		}
+	}
+	return false
+}
+
+func substExpr(e Expr, sub map[string]Expr) Expr {
+	switch x := e.(type) {
+	case *EIdent:
+		if r, ok := sub[x.Name]; ok {
+			return r
+		}
+		return x
+	case *EUnary:
+		return &EUnary{x.Op, substExpr(x.X, sub)}
+	case *EBinary:
+		return &EBinary{x.Op, substExpr(x.X, sub), substExpr(x.Y, sub)}
+	case *ECall:
+		var args []Expr
+		for _, a := range x.Args {
+			args = append(args, substExpr(a, sub))
+		}
+		return &ECall{x.Fun, args}
+	case *ESel:
+		return &ESel{substExpr(x.X, sub), x.Name}
+	case *EIndex:
+		return &EIndex{substExpr(x.X, sub), substExpr(x.I, sub)}
+	case *ESlice:
+		n := &ESlice{X: substExpr(x.X, sub)}
+		if x.Lo != nil {
+			n.Lo = substExpr(x.Lo, sub)
+		}
+		if x.Hi != nil {
+			n.Hi = substExpr(x.Hi, sub)
+		}
+		return n
+	case *EQuant:
+		inner := map[string]Expr{}
+		for k, v := range sub {
+			inner[k] = v
+		}
+		for _, v := range x.Vars {
+			delete(inner, v.Name)
+		}
+		return &EQuant{x.Forall, x.Vars, substExpr(x.Body, inner)}
+	}
+	return e
 }
 
 // instStr evaluates one instance; "" if it cannot be evaluated or was already produced.
@@ -90,6 +198,29 @@ func (g *Gen) instStr(h *hyp, term string) (out string) {
 	return implies(h.reach, implies(and(pres...), body))
 }
 
+// instMulti instantiates a multi-variable hypothesis at the given terms (one per variable).
+func (g *Gen) instMulti(h *hyp, terms []string) (out string) {
+	defer func() {
+		if r := recover(); r != nil {
+			if _, ok := r.(specError); ok {
+				out = ""
+				return
+			}
+			panic(r)
+		}
+	}()
+	env := h.env.child()
+	for i, v := range h.qvs {
+		env.vars[v.Name] = &SV{S: terms[i], T: types.Typ[types.Int]}
+	}
+	var pres []string
+	for _, p := range h.pre {
+		pres = append(pres, env.eval(p).S)
+	}
+	body := env.eval(h.body).S
+	return implies(h.reach, implies(and(pres...), body))
+}
+
 func (g *Gen) seeIndex(term string) {
 	if g.seenSet == nil {
 		g.seenSet = map[string]bool{}
@@ -100,6 +231,9 @@ func (g *Gen) seeIndex(term string) {
 	g.seenSet[term] = true
 	g.seenIdx = append(g.seenIdx, term)
 	for _, h := range g.hyps {
+		if len(h.qvs) > 1 {
+			continue
+		}
 		if f := g.instStr(h, term); f != "" {
 			g.addFact(f)
 		}
@@ -107,10 +241,11 @@ func (g *Gen) seeIndex(term string) {
 }
 
 // lightGoal prepares the quantifier-free variant of an obligation whose clause has the
-// shape pre ==> forall i int :: body.
+// shape pre ==> forall i int {, j int} :: body (possibly behind a spec function).
 func (g *Gen) lightGoal(o *Obligation, e Expr, env *Env, cond string) {
 	var pre []Expr
 	for {
+		e = g.inlineSpec(e, 0)
 		b, ok := e.(*EBinary)
 		if !ok || b.Op != "==>" {
 			break
@@ -118,8 +253,9 @@ func (g *Gen) lightGoal(o *Obligation, e Expr, env *Env, cond string) {
 		pre = append(pre, b.X)
 		e = b.Y
 	}
+	e = g.inlineSpec(e, 0)
 	q, ok := e.(*EQuant)
-	if !ok || !q.Forall || len(q.Vars) != 1 || (q.Vars[0].Type != "int" && q.Vars[0].Type != "mathint") {
+	if !ok || !q.Forall || !allIntVars(q.Vars) {
 		return
 	}
 	defer func() {
@@ -131,23 +267,238 @@ func (g *Gen) lightGoal(o *Obligation, e Expr, env *Env, cond string) {
 			panic(r)
 		}
 	}()
-	sk := g.freshConst("sk."+sanitize(q.Vars[0].Name), "Int")
+	// typing facts of ground heap reads made while building the light query belong to this query
+	savedSide := g.sideFact
+	if savedSide != nil {
+		g.sideFact = func(term string, t types.Type, alloc string) {
+			if f := g.rangeFact(term, t); f != "" {
+				o.LightExtra = append(o.LightExtra, f)
+			}
+			if alloc != "" {
+				if f := g.allocBound(term, t, alloc); f != "" {
+					o.LightExtra = append(o.LightExtra, f)
+				}
+			}
+		}
+		defer func() { g.sideFact = savedSide }()
+	}
 	ne := env.child()
-	ne.vars[q.Vars[0].Name] = &SV{S: sk, T: types.Typ[types.Int]}
+	var sks []string
+	for _, v := range q.Vars {
+		sk := g.freshConst("sk."+sanitize(v.Name), "Int")
+		ne.vars[v.Name] = &SV{S: sk, T: types.Typ[types.Int]}
+		sks = append(sks, sk)
+	}
 	var pres []string
 	for _, p := range pre {
 		pres = append(pres, ne.eval(p).S)
 	}
 	body := ne.eval(q.Body).S
 	o.LightGoal = implies(cond, implies(and(pres...), body))
-	for _, h := range g.hyps {
-		for _, t := range []string{sk, "(- " + sk + " 1)", "(+ " + sk + " 1)"} {
-			saved := h.done[t]
-			h.done[t] = false
-			if f := g.instStr(h, t); f != "" {
-				o.LightExtra = append(o.LightExtra, f)
-			}
-			h.done[t] = saved
+	// candidate terms: the skolems, their neighbours, and the index terms the code used recently
+	var cands []string
+	los := g.sliceLos
+	if len(los) > 3 {
+		los = los[len(los)-3:]
+	}
+	var shifted []string
+	for _, sk := range sks {
+		cands = append(cands, sk, "(- "+sk+" 1)", "(+ "+sk+" 1)")
+		for _, lo := range los {
+			shifted = append(shifted, "(+ "+sk+" "+lo+")")
 		}
 	}
+	cands = append(cands, shifted...)
+	n := len(g.seenIdx)
+	lo := 0
+	if n > 6 {
+		lo = n - 6
+	}
+	extra := append([]string{}, g.seenIdx[lo:]...)
+	for _, h := range g.hyps {
+		if len(h.qvs) <= 1 {
+			for _, t := range cands {
+				saved := h.done[t]
+				h.done[t] = false
+				if f := g.instStr(h, t); f != "" {
+					o.LightExtra = append(o.LightExtra, f)
+				}
+				h.done[t] = saved
+			}
+			continue
+		}
+		if len(h.qvs) == 2 {
+			pool := append(append(append([]string{}, sks...), shifted...), extra...)
+			for _, a := range pool {
+				for _, b := range pool {
+					if f := g.instMulti(h, []string{a, b}); f != "" {
+						o.LightExtra = append(o.LightExtra, f)
+					}
+				}
+			}
+		}
+	}
+	g.presInstances(o)
+}
+
+// presInstances adds, for every assumed "preserved(heap)" relation cur/old and every reference term r
+// with (select cur r) in the light query, the instance r <= alloc ==> cur[r] == old[r].
+func (g *Gen) presInstances(o *Obligation) {
+	if len(g.presRels) == 0 {
+		return
+	}
+	seen := map[string]bool{}
+	texts := append([]string{o.LightGoal}, o.LightExtra...)
+	for round := 0; round < 3 && len(texts) > 0; round++ {
+		// reference terms read from any version of a heap, per heap key
+		refs := map[string][]string{}
+		elems := map[string][][2]string{} // (ref, index) pairs of nested selects, per heap key
+		for _, t := range texts {
+			for idx := 0; ; {
+				k := strings.Index(t[idx:], "(select (select ")
+				if k < 0 {
+					break
+				}
+				start := idx + k + len("(select (select ")
+				idx = start
+				if start >= len(t) || t[start] == '(' {
+					continue
+				}
+				symEnd := sexpEnd(t, start)
+				if symEnd < 0 || symEnd >= len(t) || t[symEnd] != ' ' {
+					continue
+				}
+				key := heapKeyOfSym(t[start:symEnd])
+				if key == "" {
+					continue
+				}
+				rEnd := sexpEnd(t, symEnd+1)
+				if rEnd < 0 || rEnd+2 >= len(t) || t[rEnd] != ')' || t[rEnd+1] != ' ' {
+					continue
+				}
+				jEnd := sexpEnd(t, rEnd+2)
+				if jEnd < 0 {
+					continue
+				}
+				ref, j := t[symEnd+1:rEnd], t[rEnd+2:jEnd]
+				if hasBoundTok(ref) || hasBoundTok(j) {
+					continue
+				}
+				elems[key] = append(elems[key], [2]string{ref, j})
+			}
+		}
+		for _, t := range texts {
+			for idx := 0; ; {
+				k := strings.Index(t[idx:], "(select ")
+				if k < 0 {
+					break
+				}
+				start := idx + k + len("(select ")
+				idx = start
+				if start >= len(t) || t[start] == '(' {
+					continue
+				}
+				symEnd := sexpEnd(t, start)
+				if symEnd < 0 || symEnd >= len(t) || t[symEnd] != ' ' {
+					continue
+				}
+				key := heapKeyOfSym(t[start:symEnd])
+				if key == "" {
+					continue
+				}
+				end := sexpEnd(t, symEnd+1)
+				if end < 0 {
+					continue
+				}
+				ref := t[symEnd+1 : end]
+				if hasBoundTok(ref) {
+					continue
+				}
+				refs[key] = append(refs[key], ref)
+			}
+		}
+		var added []string
+		for _, pr := range g.presRels {
+			if pr.except != "" {
+				for _, rj := range elems[heapKeyOfSym(pr.cur)] {
+					key := pr.cur + "|" + rj[0] + "|" + rj[1]
+					if seen[key] {
+						continue
+					}
+					seen[key] = true
+					exc := strings.ReplaceAll(strings.ReplaceAll(pr.except, "r!", rj[0]), "j!", rj[1])
+					added = append(added, implies(pr.reach, fmt.Sprintf("(=> (and (<= %[1]s %[2]s) (not %[3]s)) (= (select (select %[4]s %[1]s) %[5]s) (select (select %[6]s %[1]s) %[5]s)))", rj[0], pr.alloc, exc, pr.cur, rj[1], pr.old)))
+				}
+				continue
+			}
+			for _, ref := range refs[heapKeyOfSym(pr.cur)] {
+				key := pr.cur + "|" + ref
+				if seen[key] {
+					continue
+				}
+				seen[key] = true
+				added = append(added, implies(pr.reach, fmt.Sprintf("(=> (<= %s %s) (= (select %s %s) (select %s %s)))", ref, pr.alloc, pr.cur, ref, pr.old, ref)))
+			}
+		}
+		o.LightExtra = append(o.LightExtra, added...)
+		texts = added
+		if len(o.LightExtra) > 4000 {
+			break
+		}
+	}
+}
+
+// hasBoundTok: the term mentions one of the bound variables r! / j! / k! of generated quantifiers.
+func hasBoundTok(t string) bool {
+	for _, f := range strings.FieldsFunc(t, func(r rune) bool { return r == ' ' || r == '(' || r == ')' }) {
+		if f == "r!" || f == "j!" || f == "k!" {
+			return true
+		}
+	}
+	return false
+}
+
+// heapKeyOfSym maps the name of a heap version (H0.K, call.K!n, h.K!n, ...) to its key K.
+func heapKeyOfSym(sym string) string {
+	i := strings.Index(sym, ".")
+	if i < 0 {
+		return ""
+	}
+	switch sym[:i] {
+	case "H0", "call", "h", "app", "copy", "lh", "hv", "m", "hp":
+	default:
+		return ""
+	}
+	k := sym[i+1:]
+	if j := strings.Index(k, "!"); j >= 0 {
+		k = k[:j]
+	}
+	return k
+}
+
+// sexpEnd returns the index just past the s-expression starting at s[i].
+func sexpEnd(s string, i int) int {
+	if i >= len(s) {
+		return -1
+	}
+	if s[i] != '(' {
+		j := i
+		for j < len(s) && s[j] != ' ' && s[j] != ')' {
+			j++
+		}
+		return j
+	}
+	depth := 0
+	for j := i; j < len(s); j++ {
+		switch s[j] {
+		case '(':
+			depth++
+		case ')':
+			depth--
+			if depth == 0 {
+				return j + 1
+			}
+		}
+	}
+	return -1
 }
